@@ -65,7 +65,11 @@ def build_case(cs, profile):
     return rng, spec, opts
 
 
-def lp_case(cs, ctx, profile, probe_rate=0.0, probe_cap=64):
+SOLVER_DEPENDENT = ('optimal_value', 'trace_prefix_optimal', 'status_vs_reference', 'pin_probe', 'reported_stable',
+                    'valid_matching', 'flag_permutation')
+
+
+def lp_case(cs, ctx, profile, probe_rate=0.0, probe_cap=64, _confirm=False):
     if ctx.tier == 'quick':
         profile = dict(profile, _large_scale=0.35)     # large instances are slow: fewer of them in the quick tier
     rng, spec, opts = build_case(cs, profile)
@@ -79,7 +83,8 @@ def lp_case(cs, ctx, profile, probe_rate=0.0, probe_cap=64):
         d = sp.make_opts(rng, spec, twopl=opts['twopl'] if rng.random() < 0.7 else None)
         decoy_argv = ['-na', str(spec['na'])] + sp.opts_to_argv(d, rng)
         ctx.cnt('runs_with_a_second_live_solver_object')
-    ex = en.run_lp(spec, opts, ctx.workdir, rng, inject=profile.get('inject', True), decoy_argv=decoy_argv)
+    ex = en.run_lp(spec, opts, ctx.workdir, rng, inject=profile.get('inject', True), decoy_argv=decoy_argv,
+                   cbc_options=['preprocess off'] if _confirm else None)
     do_probe = ref['enumerable'] and rng.random() < probe_rate
     cnt = {}
     findings, facts = en.judge_lp(ex, ref, probe_cap=probe_cap if do_probe else 0,
@@ -92,6 +97,23 @@ def lp_case(cs, ctx, profile, probe_rate=0.0, probe_cap=64):
     ctx.cnt('solves_observed', len(ex['events']))
     case = {'cs': cs, 'profile': profile['name'], 'spec': spec, 'opts': opts}
     case.update(en.light(ex))
+    if _confirm:
+        return {'findings': findings}
+    own = [f for f in findings if f['prop'] == ctx.prop and f['monitor'] in SOLVER_DEPENDENT]
+    if own:
+        # second opinion: CBC's integer preprocessing has been seen to return wrong answers (an infeasible or a
+        # suboptimal point with status Optimal); an alarm that depends on what the back end returned must
+        # reproduce with preprocessing off, otherwise it is counted as a back-end fault, not a violation
+        again = lp_case(cs, ctx, profile, probe_rate=1.0 if any(f['monitor'] == 'pin_probe' for f in own) else 0.0,
+                        probe_cap=probe_cap, _confirm=True)
+        confirmed = {(f['prop'], f['monitor']) for f in again['findings']}
+        kept = []
+        for f in findings:
+            if f in own and (f['prop'], f['monitor']) not in confirmed:
+                ctx.cnt('alarms_not_reproduced_with_cbc_preprocessing_off')
+                continue
+            kept.append(f)
+        findings = kept
     for f in findings:
         ctx.finding(f, case)
     # second solve() on the same Solver object: every output oracle must hold again
